@@ -32,10 +32,14 @@ func C12(c *Ctx) {
 				Args: []int{b[0], b[1], mode}, Replay: ReplaySpec{Kind: "repo", PkgDirs: []string{"Grammar"}}})
 			c.MarkDistinct(fmt.Sprintf("fix %v %d", b, mode))
 		}
-		for _, b := range use {
-			c.RunSym(SymJob{Name: fmt.Sprintf("usable R=%d len<=%d start=%d", b[0], b[1], mode), Eng: engP, PkgPath: RepoModule + "/Parser", Entry: "VerifUsable",
-				Args: []int{b[0], b[1], mode}, Replay: ReplaySpec{Kind: "repo", PkgDirs: []string{"Parser"}}})
-			c.MarkDistinct(fmt.Sprintf("use %v %d", b, mode))
+		for i, b := range use {
+			m := mode
+			if i >= 3 {
+				m = mode + 2 // the larger (thorough) shapes run without %prec choices
+			}
+			c.RunSym(SymJob{Name: fmt.Sprintf("usable R=%d len<=%d mode=%d", b[0], b[1], m), Eng: engP, PkgPath: RepoModule + "/Parser", Entry: "VerifUsable",
+				Args: []int{b[0], b[1], m}, Replay: ReplaySpec{Kind: "repo", PkgDirs: []string{"Parser"}}})
+			c.MarkDistinct(fmt.Sprintf("use %v %d", b, m))
 		}
 	}
 	c.Bound("each shape with the user's start symbol named S / X and named `start` (no %%start directive)")
